@@ -72,8 +72,12 @@ func (q *zz35Q) producerCall() {
 	if q.calls > 1 { // the first call is on CID 0 without loss of generality (the queue treats CIDs alike)
 		i = verifrt.NondetRange("call_cid", 0, len(q.cids)-1)
 	}
+	q.producerCallOn(i, verifrt.NondetRange("call_kind", 0, 3))
+}
+
+func (q *zz35Q) producerCallOn(i, kind int) {
 	c := q.cids[i]
-	switch verifrt.NondetRange("call_kind", 0, 3) {
+	switch kind {
 	case 0:
 		q.mq.AddWants([]cid.Cid{c}, nil)
 		q.peerWant[i] = 2
